@@ -1,4 +1,4 @@
-\* thorough: 2 clients x <= 2 messages, pool of 2, broadcast replies, repaired pool
+\* thorough: 2 clients x 1 message, pool of 2, broadcast replies + external unicast, repaired pool
 CONSTANTS
   c1 = c1
   c2 = c2
@@ -7,17 +7,18 @@ CONSTANTS
   w2 = w2
   w3 = w3
   Clients <- CS2
-  MaxMsgs = 2
+  MaxMsgs = 1
   MaxPings = 0
   Workers <- WS2
   Heartbeat = FALSE
   Reply <- ReplyBc
-  ExtScript <- ExtNone
+  ExtScript <- ExtUni
   Mode = "free"
   ShutdownMode = "any"
   Dev = {}
 INIT Init
 NEXT Next
 SYMMETRY Sym
+VIEW MCView
 INVARIANTS TypeOK CurInStreams DispatchInvs InvocationInvs DeliveryInvs QuiescentComplete
 CHECK_DEADLOCK FALSE
